@@ -125,4 +125,7 @@ def rows_to_drift(ck, rows, keep_case=True):
         if keep_case:
             d["witness"] = r.get("case")
         ck.drift.append(d)
+    # evidence keeps only the number of drift entries: keep the entries themselves (trimmed) next to the coverage
+    ck.cov["drift_details"] = [json.loads(json.dumps(d, default=str)[:4000]) if len(json.dumps(d, default=str)) <= 4000
+                               else {k: d[k] for k in ("class", "field", "expected", "observed")} for d in ck.drift]
     return first
